@@ -541,8 +541,9 @@ class Function(object):
         """
 
         # Browse the list of point "self" has been evaluated on
+        point_decomposition_dict = prune_dict(point.decomposition_dict)
         for triplet in self.list_of_points:
-            if triplet[0].decomposition_dict == point.decomposition_dict:
+            if prune_dict(triplet[0].decomposition_dict) == point_decomposition_dict:
                 # If "self" has been evaluated on "point", then break the loop and return its corresponding data
                 return triplet[1:]
 
